@@ -37,7 +37,7 @@ def Action.isRecvSide : Action → Bool
 /-- arrival, decoding, table lookup and the receiver's give-up never touch a call, the table or a counter -/
 theorem recvSide_frame {cfg : Cfg} {s s' : State} {a : Action} (ha : a.isRecvSide = true)
     (h : step cfg s a = some s') :
-    s'.calls = s.calls ∧ s'.table = s.table ∧ s'.queueLen = s.queueLen ∧ s'.invokeNum = s.invokeNum ∧
+    s'.calls = s.calls ∧ s'.table = s.table ∧ s'.queueLens = s.queueLens ∧ s'.invokeNum = s.invokeNum ∧
       s'.gen = s.gen ∧ s'.conns = s.conns := by
   cases a <;> simp [Action.isRecvSide] at ha
   all_goals (
